@@ -604,7 +604,7 @@ func runCase(line string) string {
 		return vp.VerifApply(kind, pod)
 	}
 	answers := []string{}
-	for _, op := range parts[1:] {
+	for opIdx, op := range parts[1:] {
 		if len(op) == 0 {
 			continue
 		}
@@ -633,7 +633,16 @@ func runCase(line string) string {
 			ip := hx.MustUnS(op[1])
 			ambiguous := vp.VerifIndexCount(ip) > 1
 			var e error
-			inst := vp.VerifRaceLookup(ip, func() { e = event(op[2:]) })
+			// every other racing lookup is itself overlapped by a second lookup of the same address that starts after
+			// the event and completes first (it is not an op of the case: a lookup of the current state changes nothing
+			// a later answer may depend on)
+			nested := opIdx%2 == 1
+			inst := vp.VerifRaceLookup(ip, func() {
+				e = event(op[2:])
+				if nested && e == nil {
+					vp.VerifLookup(ip)
+				}
+			})
 			if e != nil {
 				return "PANIC event: " + e.Error()
 			}
